@@ -246,6 +246,19 @@ def misc_case(args):
                 problems.append(("command-to-params", "emitted %s, the command printed %r" % (rec_lines(sc, "rec_c2p"), ctext)))
             if rec_lines(sc, "rec_psrc") != ["v%d" % j for j in range(L)] or rec_lines(sc, "rec_src") != paths:
                 problems.append(("sources", "sources emitted %s / %s" % (rec_lines(sc, "rec_psrc"), rec_lines(sc, "rec_src"))))
+        if not problems and L >= 1:
+            # life cycle: the inputs are replaced by shorter (or longer) ones and the workflow is run again in the same
+            # directory: the concatenation is that of the new inputs, nothing of the old output survives
+            for j, p in enumerate(paths):
+                sp.files[p] = rng.choice(["s%d\n" % j, "s%d" % j, "a much longer replacement for input number %d\n" % j])
+            sc.plant({p: sp.files[p] for p in paths})
+            impl2 = t3.run_impl(sc, sp, timeout=60)
+            want2 = unhx(model_eval("concat", "%d%s" % (L, "".join(" " + hx(sp.files[p]) for p in paths))))
+            got2 = impl2["fs"].get(outp, (None, None))[1]
+            if impl2["rc"] != 0:
+                problems.append(("component-fails", "second run with replaced inputs: rc=%s %s" % (impl2["rc"], impl2["stderr"][-200:])))
+            elif got2 != want2:
+                problems.append(("concatenator-rerun", "inputs replaced, workflow run again in place: output %r, the concatenation of the inputs is %r" % (got2, want2)))
         return {"spec": sp.text(), "bufsize": sp.bufsize, "problems": problems, "ntasks": L, "rc": impl["rc"], "stderr": impl["stderr"][-200:], "yield": None, "wall": impl["wall"], "kind": "misc", "nontrivial": L >= 1}
     finally:
         sc.close()
@@ -275,7 +288,7 @@ def run(rep, tier, seed):
         rep.violation("combine differs from the model: impl %s model %s" % (a, b), {"kind": "combine", "input_line": lines[i] if i >= 0 else None, "impl": a, "model": b})
     rep.cov["evaluations"] = len(results) + len(lines) + 200
     rep.cov["distinct_nontrivial"] = len({r["spec"] for r in results if r["nontrivial"]})
-    rep.cov["rule"] = "T3 with recorder components downstream of every out-port: File/ParamCombinator with 1-4 ports fed by independent sources of length 0..buffer+2 (aligned tuples = Cartesian product, each once; enumeration = the model's for some key order); IPSelectorSync with 1-3 ports and every pattern of failing members; FileSplitter on files of 0..3n lines (exact multiples, unterminated last line, CRLF, empty lines) for n in 1..4 (part names, bytes = model, concatenation = normalised input, <= n lines each); Concatenator, FileGlobber on a generated tree, FileToParamsReader, CommandToParams, File/ParamSource; T2: combine with the key order given, vs the extracted model; non-trivial = at least two non-empty streams / two rows / two lines"
+    rep.cov["rule"] = "T3 with recorder components downstream of every out-port: File/ParamCombinator with 1-4 ports fed by independent sources of length 0..buffer+2 (aligned tuples = Cartesian product, each once; enumeration = the model's for some key order); IPSelectorSync with 1-3 ports and every pattern of failing members; FileSplitter on files of 0..3n lines (exact multiples, unterminated last line, CRLF, empty lines) for n in 1..4 (part names, bytes = model, concatenation = normalised input, <= n lines each); Concatenator (also run a second time in place after its inputs were replaced by shorter or longer ones), FileGlobber on a generated tree, FileToParamsReader, CommandToParams, File/ParamSource; T2: combine with the key order given, vs the extracted model; non-trivial = at least two non-empty streams / two rows / two lines"
     rep.cov["samples"] = [results[0]["spec"]]
     kinds = {}
     for r in results:
